@@ -165,6 +165,16 @@ def F_check(ctx, lib):
             ret = flow.Defs(b).expr_local(0)
             env = match(ret, C("all", C("zip", C("iter", V("L")), C("iter", V("R"))), CLOS("cmp")))
             okz = False
+            # third spelling: grd.iter().enumerate().all(|(idx, g)| g.compare_inf(&interpretation[idx])) - the indexed comparison as a closure
+            env_e = match(ret, C("all", C("enumerate", C("iter", V("L"))), CLOS("cmp"))) if env is None else None
+            if env_e is not None:
+                is_grd = bool(flow.find(env_e["L"], lambda n_: n_[0] == "call" and flow.sg(n_[1]).endswith("adf::Adf::grounded_internal")))
+                cb = lib.body(env_e["cmp"])
+                cret = flow.subst_upvars(flow.closure_ret(lib, cb), flow.resolve_captures(lib, cb) or [])
+                item_v, item_i = F(P(2), "1"), F(P(2), "0")
+                other = IDX(OP(flow.sg(b.path).split("::", 1)[-1], 2), item_i)
+                cmp_ok = match(cret, C("Term::compare_inf", item_v, other)) is not None or match(cret, C("Term::compare_inf", other, item_v)) is not None
+                okz = is_grd and cmp_ok and len([1 for bb_, t_ in cb.terminators() if t_["k"] == "return"]) == 1
             if env is not None:
                 is_grd = lambda r: bool(flow.find(r, lambda n_: n_[0] == "call" and flow.sg(n_[1]).endswith("adf::Adf::grounded_internal")))
                 is_int = lambda r: match(r, P(2)) is not None
@@ -306,7 +316,9 @@ def F_cand(ctx, lib):
     # which rewriting is used
     eng = ctx.engine([lib], no_inline={"adf_bdd::adfbiodivine::Adf::stable_representation"})
     calls = [flow.sg(ir.callee_path(ci) or "") for _, t, ci in b.calls()]
-    ctx.ob(rule, "fallback-rewriting", any(c.endswith("Adf::stable_representation") for c in calls) and any(c.endswith("has_stm_rewriting") for c in calls),
+    import json as _json
+    reads_rewrite = any(c.endswith("has_stm_rewriting") for c in calls) or '"name": "rewrite"' in _json.dumps(b.blocks)
+    ctx.ob(rule, "fallback-rewriting", any(c.endswith("Adf::stable_representation") for c in calls) and reads_rewrite,
            where=b.where(), expected="uses self.rewrite when present, otherwise stable_representation()", found=[c.split("::")[-1] for c in calls][:8])
 
 
